@@ -201,7 +201,7 @@ with open(os.path.join(verif, "evidence", f"{pid}.json"), "w") as f:
     f.write("\n")
 
 for v in knownhits:
-    print(f"KNOWN-FINDING: property={pid} {v['key']} — {known_keys[v['key']].get('what','')}")
+    print(f"KNOWN-FINDING: property={pid} {v['key']} — {known_keys[v['key']].get('what','')[:200]}")
 printed = set()
 for v in real:
     tag = (v["key"])
